@@ -520,6 +520,106 @@ example : RenderedQ "[\"ab\",\"c\"]".toList [2] (["ab".toList, "c".toList].map T
         · exact RenderedQ.str _ (q _ (.inl rfl))
         · exact RenderedQ.str _ (q _ (.inr rfl)))
 
+/-! ### scalar definitions at text level: from the line as written to the value `parse` returns -/
+
+/-- **Integer definition, end to end.**  `<k blanks>name [u]int[NN] = [+-]digits [unit] [# comment]` (any number of
+    blanks in the gaps; a written unit is known) parses to exactly one parameter: the written name, width/sign and
+    unit, and as value the integer the digits denote. -/
+theorem C13_int_scalar_text (tbl : List UnitRow) (k : Nat) (nm : Str) (a : Nat) (uns : Bool) (w : Option IntW) (b c : Nat)
+    (sg : Option Bool) (d : Str) (unit cm : Option (Nat × Str))
+    (hn : NameOk nm) (hu : ∀ n x, unit = some (n, x) → UnitOk x) (htail : NoEsc (renderTail unit cm))
+    (hunit : ∀ n x, unit = some (n, x) → tbl.any (fun r => r.name = x) = true) (hd : allDigits d = true) :
+    parseLines (mkParams tbl)
+        [List.replicate k ' ' ++ (definePrefix nm a (.int uns w) none b c ++ ((signText sg ++ d) ++ renderTail unit cm))] =
+      .ok [{ name := nm, ty := .int, info := (TyD.int uns w).info, dims := none, units := unit.map Prod.snd,
+             value := some (.scalar (.num (((if signNeg sg then -(digitsToNat d : Int) else (digitsToNat d : Int)) : Int) : Rat))),
+             declared := false }] := by
+  obtain ⟨hdne, hall⟩ := allDigits_iff hd
+  have hne : signText sg ++ d ≠ [] := by simp [hdne]
+  obtain ⟨hlit, hesc, hs⟩ := numWord_lit (signText sg ++ d) hne (by
+    intro ch hch
+    rcases List.mem_append.mp hch with h | h
+    · rcases signText_chars sg ch h with rfl | rfl <;> simp
+    · exact .inl (hall ch h))
+  have hemp : ((signText sg ++ d).isEmpty && (TyD.int uns w).ty != .str) = false := by
+    cases hh : signText sg ++ d with
+    | nil => exact absurd hh hne
+    | cons _ _ => rfl
+  exact define_scalar_text_core tbl k nm a (.int uns w) b c (.bare (signText sg ++ d)) unit cm _ hn hu htail
+    (fun n x h => ⟨.inl rfl, hunit n x h⟩) hlit hesc hs hemp (C13_cast_int_literal sg d hd)
+
+/-- **Float definition, end to end**: `name float[NN] = literal [unit] [# comment]` with a decimal / scientific
+    literal (`23.3`, `.5`, `5.`, `-1.5E-3`, `+1e5`, …) parses to one parameter whose value is the rational denoted. -/
+theorem C13_float_scalar_text (tbl : List UnitRow) (k : Nat) (nm : Str) (a : Nat) (w : Option FloatW) (b c : Nat)
+    (f : FloatD) (unit cm : Option (Nat × Str))
+    (hn : NameOk nm) (hu : ∀ n x, unit = some (n, x) → UnitOk x) (htail : NoEsc (renderTail unit cm))
+    (hunit : ∀ n x, unit = some (n, x) → tbl.any (fun r => r.name = x) = true) (hf : f.Ok) :
+    parseLines (mkParams tbl)
+        [List.replicate k ' ' ++ (definePrefix nm a (.float w) none b c ++ (f.render ++ renderTail unit cm))] =
+      .ok [{ name := nm, ty := .float, info := (TyD.float w).info, dims := none, units := unit.map Prod.snd,
+             value := some (.scalar (.num f.value)), declared := false }] := by
+  have hne := floatD_render_ne f hf
+  obtain ⟨hlit, hesc, hs⟩ := numWord_lit f.render hne (floatD_chars f hf)
+  have hemp : (f.render.isEmpty && (TyD.float w).ty != .str) = false := by
+    cases hh : f.render with
+    | nil => exact absurd hh hne
+    | cons _ _ => rfl
+  exact define_scalar_text_core tbl k nm a (.float w) b c (.bare f.render) unit cm _ hn hu htail
+    (fun n x h => ⟨.inr rfl, hunit n x h⟩) hlit hesc hs hemp (C13_cast_float_literal f hf)
+
+/-- **Boolean definition, end to end**: `name bool = true|false [# comment]`. -/
+theorem C13_bool_scalar_text (tbl : List UnitRow) (k : Nat) (nm : Str) (a b c : Nat) (bv : Bool) (cm : Option (Nat × Str))
+    (hn : NameOk nm) (htail : NoEsc (renderTail none cm)) :
+    parseLines (mkParams tbl)
+        [List.replicate k ' ' ++ (definePrefix nm a .bool none b c ++
+          ((if bv then "true".toList else "false".toList) ++ renderTail none cm))] =
+      .ok [{ name := nm, ty := .bool, info := {}, dims := none, units := none,
+             value := some (.scalar (.bool bv)), declared := false }] := by
+  have ht : "true".toList = ['t', 'r', 'u', 'e'] := by decide
+  have hf : "false".toList = ['f', 'a', 'l', 's', 'e'] := by decide
+  have hk := C13_cast_keywords .bool none [] (by decide)
+  cases bv
+  · simp only [Bool.false_eq_true, if_false]
+    have hc := hk.2.2.1
+    rw [hf] at hc ⊢
+    exact define_scalar_text_core tbl k nm a .bool b c (.bare ['f', 'a', 'l', 's', 'e']) none cm _ hn
+      (by intro n x h; cases h) htail (by intro n x h; cases h)
+      ⟨⟨'f', ['a', 'l', 's', 'e'], rfl, by decide, by decide, by decide, by decide⟩, by decide⟩
+      (by show ∀ c ∈ ['f', 'a', 'l', 's', 'e'], c ≠ '\\' ∧ c ≠ '\n'; decide)
+      (by show ∀ c ∈ ['f', 'a', 'l', 's', 'e'], c ≠ '$'; decide) rfl hc
+  · simp only [if_true]
+    have hc := hk.2.1
+    rw [ht] at hc ⊢
+    exact define_scalar_text_core tbl k nm a .bool b c (.bare ['t', 'r', 'u', 'e']) none cm _ hn
+      (by intro n x h; cases h) htail (by intro n x h; cases h)
+      ⟨⟨'t', ['r', 'u', 'e'], rfl, by decide, by decide, by decide, by decide⟩, by decide⟩
+      (by show ∀ c ∈ ['t', 'r', 'u', 'e'], c ≠ '\\' ∧ c ≠ '\n'; decide)
+      (by show ∀ c ∈ ['t', 'r', 'u', 'e'], c ≠ '$'; decide) rfl hc
+
+/-- **String definition, end to end**: `name str = "text" [# comment]` (the text free of `"`, backslash, newline,
+    `$`, and not the word `none`) parses to one parameter whose value is exactly the text between the quotes —
+    blanks and `#` inside the quotes included. -/
+theorem C13_str_quoted_text (tbl : List UnitRow) (k : Nat) (nm : Str) (a b c : Nat) (s : Str) (cm : Option (Nat × Str))
+    (hn : NameOk nm) (htail : NoEsc (renderTail none cm))
+    (hs : ∀ ch ∈ s, ch ≠ '"' ∧ ch ≠ '\\' ∧ ch ≠ '\n' ∧ ch ≠ '$') (hnone : (s == "none".toList) = false) :
+    parseLines (mkParams tbl)
+        [List.replicate k ' ' ++ (definePrefix nm a .str none b c ++ (('"' :: (s ++ ['"'])) ++ renderTail none cm))] =
+      .ok [{ name := nm, ty := .str, info := {}, dims := none, units := none,
+             value := some (.scalar (.str s)), declared := false }] := by
+  have hesc : NoEsc (Lit.render (.dq s)) := by
+    intro ch hch
+    simp only [Lit.render, List.mem_cons, List.mem_append, List.not_mem_nil, or_false] at hch
+    rcases hch with rfl | hch | rfl
+    · exact ⟨by decide, by decide⟩
+    · exact ⟨(hs ch hch).2.1, (hs ch hch).2.2.1⟩
+    · exact ⟨by decide, by decide⟩
+  exact define_scalar_text_core tbl k nm a .str b c (.dq s) none cm _ hn (by intro n x h; cases h) htail
+    (by intro n x h; cases h) (fun ch hch => (hs ch hch).1) hesc (fun ch hch => (hs ch hch).2.2.2)
+    (by simp [TyD.ty]) (C13_cast_keywords .str none s hnone).2.2.2
+
+example : (∀ ch ∈ "x # y z".toList, ch ≠ '"' ∧ ch ≠ '\\' ∧ ch ≠ '\n' ∧ ch ≠ '$') ∧ ("x # y z".toList == "none".toList) = false :=
+  ⟨by decide, by decide⟩
+
 /-- **Escaped quotes.**  A definition whose double-quoted value is written with `\\"` for every quote
     character of the intended text `s` (`s` itself free of backslash, newline and `$`): the lexer marks
     the escapes (`$@01`), finds the closing quote, and hands back exactly `s` — the backslashes are gone,
